@@ -22,7 +22,8 @@ POOL = ["garbage line", "vim: set ft=changelog:", ";; Local variables:", "Local 
         "foo (1) unstable; urgency", "foo (1) unstable; urgency=low, urgency=high", "foo (1) unstable; =x",
         "foo (1) unstable", "foo (2) unstable; urgency=low", "  * change", "", " ", "x", "Mon Jan 1 2001 A <a@b>", "1.0:",
         "  foo (3) unstable; urgency=low", "\tbar (1.0-1) stable; urgency=high", "  -- A B <a@b>  Thu, 12 Dec 2006 12:23:34 +0000",
-        "foo (2) unstable; urgency=low  ", " \t "]
+        "foo (2) unstable; urgency=low  ", " \t ", "oldpkg (0.1);", "oldpkg (0.1); urgency=low", "oldpkg (0.1) ; urgency=low",
+        "pkg (1.0)unstable; urgency=low", "pkg(1.0) unstable; urgency=low"]
 
 
 def _version_of(b):
@@ -168,6 +169,7 @@ def run(ctx):
     run_deductive(ctx, mod)
     from props import C04 as _c04
     _c04.verify_block_format(ctx)        # the formatter of one block: every stored component written exactly once, as stored
+    _c04.regex_lemmas(ctx, real)         # the line classes the parser's patterns accept (what is and is not a heading / trailer)
     rng = random.Random(ctx.seed)
     rounds = 2500 if ctx.tier == "quick" else 40000
     t = Tally(ctx, "B-15 totality, strict <=> warning, normal form on mutated texts and edit histories",
